@@ -105,8 +105,14 @@ def gen_ops(rng, n, vals, big):
                 ops.append("eca:%d" % rng.choice([0, 1, 1, 2, 3, 6, 4294967295]))
             elif r3 < 0.87:
                 ops.append("rpa:%d" % v)
-            else:
+            elif r3 < 0.93:
                 ops.append("gap")
+            elif r3 < 0.97:
+                xs = [rng.choice(vals) for _ in range(rng.choice([0, 1, 2, 3, 4, 6]))]
+                sp = [rng.choice(vals) for _ in range(rng.choice([0, 0, 1, 2, 5]))]
+                ops.append("adp:%s:%s" % (",".join(map(str, xs)), ",".join(map(str, sp)))); size_guess = len(xs)
+            else:
+                ops.append("rel"); size_guess = 0
     return ops
 
 
@@ -176,7 +182,9 @@ class CHECK(vlib.Check):
                 "arguments that are references into the Queue's own storage (AddTail(q[i]) etc.), ShrinkToFit/EnsureCanAdd, "
                 "ReplaceAllItems, GetArrayPointer, lexicographic comparison. "
                 "Normalize's rotation (Hsieh's cycle algorithm) and the RemoveSortedDuplicateItems / RemoveAllInstancesOf loops are code-shaped as well. "
-                "Not modelled: AdoptRawDataArray/ReleaseRawDataArray, HashCode/CalculateChecksum, constructors other than the default one.")
+                "AdoptRawDataArray (with default items behind the valid ones for owning item types, as the API requires) / "
+                "ReleaseRawDataArray incl. the array handed out. "
+                "Not modelled: HashCode/CalculateChecksum, constructors other than the default one (compositions of modelled operations).")
     premises = ["memory safety and object lifetime of the C++ (observed by ASan/UBSan in the harness only)",
                 "item counts below 2^31 (the uint32 sums size+extraPreallocs, count+n of EnsureSize/EnsureCanAdd/ShrinkToFit ARE modelled; "
                 "wrap-around of the item count itself, and allocation failure, are not)"]
@@ -188,7 +196,7 @@ class CHECK(vlib.Check):
             "scripts: contain an operation taking a Queue argument.")
 
     def gen_cases(self, rng, tier):
-        n = 1500 if tier == "quick" else 20000
+        n = 1400 if tier == "quick" else 20000
         out = []
         vals = [0, 1, 2, 3, 5, 7, -1, 9]
         for i in range(n):
@@ -215,6 +223,16 @@ class CHECK(vlib.Check):
                             "es:4294967295:0:0:0", "es:4294967295:1:0:0", "es:4294967290:1:9:1", "es:3:1:4294967295:0", "eca:4294967295",
                             "eca:%d" % (4294967295 - c0), "stf:4294967295", "stf:%d" % (4294967295 - c0)):
                     out.append(("directed", kind + "|" + ";".join(x for x in (pre, big, "at:7;g:0") if x)))
+        # directed: AdoptRawDataArray with arrays shorter than / equal to / longer than the in-object array (also of no slots at all)
+        # over every storage kind, then growth, wrap-around and shrinking on the adopted array; ReleaseRawDataArray from a
+        # wrapped in-object array, a wrapped heap array, an empty and a never-used Queue
+        for kind in "TO":
+            for pre in ("", "at:1;at:2", "at:1;at:2;at:3;rh;at:4", "at:1;at:2;at:3;at:4;at:5;rh;rh;at:6"):
+                for ad in ("adp::", "adp:7:", "adp:7,8:5", "adp:7,8,9:", "adp:7,8,9:1,2", "adp::4,4,4,4", "adp:1,2,3,4,5:6,6"):
+                    for post in ("at:3;at:4;ah:5;rt", "es:4:1:0:0;rh;at:9;nm", "es:0:1:0:1;at:1", "cl:0;at:1;at:2", "rel;at:1", "stf:0;gap"):
+                        out.append(("directed", kind + "|" + ";".join(x for x in (pre, ad, post, "g:0") if x)))
+                for post in ("rel", "rel;rel", "rel;at:1;at:2;rel", "es:9:0:0:0;rel;at:5"):
+                    out.append(("directed", kind + "|" + ";".join(x for x in (pre, post, "g:0") if x)))
         # directed: Sort around the bubble/merge threshold (12) and well past it, both comparators, sub-ranges, on a
         # wrapped window; keys x/4 with distinct payloads make stability observable
         for kind in "TO":
